@@ -310,6 +310,22 @@ def run_foreign(seed):
                             'variable(s) %s, none of which carries it' % (name, foreign, [g.name for g in got]), info))
         except (NotImplementedError, KeyError):
             pass
+    # objects that are "falsy" (an empty literal, the number 0) are objects like any other, not a wildcard
+    P2 = rdflib.URIRef('http://example.org/ns#note')
+    carriers = {}
+    for v, obj in zip([x for x in vs if x.cmeta_id is not None], [rdflib.Literal(''), rdflib.Literal('remark'), rdflib.Literal(0)]):
+        m.rdf.add((v.rdf_identity, P2, obj))
+        carriers[obj] = v
+    for obj, arg in ((rdflib.Literal(''), ''), (rdflib.Literal(0), rdflib.Literal(0)), (rdflib.Literal('remark'), 'remark')):
+        try:
+            got = m.get_variables_by_rdf(('http://example.org/ns#', 'note'), arg)
+        except Exception as e:
+            bad.append(('get_variables_by_rdf(note, %r) raises %r' % (arg, e), info))
+            continue
+        want = [carriers[obj]] if obj in carriers else []
+        if [g.name for g in got] != [w.name for w in want]:
+            bad.append(('get_variables_by_rdf(note, %r) returns %s, the variables carrying exactly that object are %s'
+                        % (arg, [g.name for g in got], [w.name for w in want]), info))
     # the local annotations are still found
     for k, v in local_terms.items():
         try:
